@@ -21,6 +21,7 @@ void Interpolation::applyProlongation0(const Level& fromLevel, const Level& toLe
 
 #pragma omp parallel for
     for (int index = 0; index < fineGrid.numberOfNodes(); index++) {
+        VERIF_ITER(index);
         std::array<std::pair<double, double>, space_dimension> neighbor_distance;
 
         MultiIndex fine_node = fineGrid.multiIndex(index);
@@ -171,6 +172,7 @@ void Interpolation::applyProlongation(const Level& fromLevel, const Level& toLev
 /* For loop matches circular access pattern */
 #pragma omp for nowait
         for (int i_r = 0; i_r < fineGrid.numberSmootherCircles(); i_r++) {
+            VERIF_ITER(i_r);
             int i_r_coarse = i_r / 2;
             for (int i_theta = 0; i_theta < fineGrid.ntheta(); i_theta++) {
                 int i_theta_coarse = i_theta / 2;
@@ -182,6 +184,7 @@ void Interpolation::applyProlongation(const Level& fromLevel, const Level& toLev
 /* For loop matches radial access pattern */
 #pragma omp for nowait
         for (int i_theta = 0; i_theta < fineGrid.ntheta(); i_theta++) {
+            VERIF_ITER(i_theta);
             int i_theta_coarse = i_theta / 2;
             for (int i_r = fineGrid.numberSmootherCircles(); i_r < fineGrid.nr(); i_r++) {
                 int i_r_coarse = i_r / 2;
